@@ -453,6 +453,10 @@ var c08Modelled = map[string]bool{"readall": true, "ssh1": true, "pgplen": true,
 const c08ModelMax = 40 << 10 // larger inputs are checked against K*n+C and the time limit only
 
 func genC08(c *Ctx) {
+	if os.Getenv("C08_ONLY") == "giant" { // development aid
+		c08GenGiant(c)
+		return
+	}
 	var cases []c08Case
 	add := func(comp, tag, name string, data []byte) {
 		cases = append(cases, c08Case{comp: comp, tag: tag, name: name, data: data})
@@ -529,6 +533,8 @@ func genC08(c *Ctx) {
 	for _, f := range functional {
 		f()
 	}
+	// last, so that the ids of all cases above do not depend on where a giant-field shape stops
+	c08GenGiant(c)
 }
 
 // ---------------------------------------------------------------------------------------
@@ -637,6 +643,17 @@ func c08Corpus(c *Ctx, add func(comp, tag, name string, data []byte), addBig fun
 		suffix: []byte("\n\nAAAA\n-----END PGP PUBLIC KEY BLOCK-----\n")})
 	// C08-S1: one 64 KiB signature packet of nested embedded signatures (every level copies its hashed area)
 	add("pgpread", "corpus-S1-nested-embedded-sigs", "", pgpNestedSigs(65000))
+	// C08-O1: one OBJECT IDENTIFIER arc of 256 KiB (oidString shifted an accumulator per octet: quadratic)
+	addBig("inspect", "corpus-O1-oid-huge-arc-256k", "d.der", derForest([]*dn{{id: []byte{0x06}, fill: fillRep("\x2A\xFF", "\xFF", "\x7F")}}, 256<<10))
+	// C08-D1: DSA primary key with parameters as long as MPIs can be and a self-signature whose hash
+	// prefix matches (55 KiB: 129 s); an ordinary subgroup order, a modulus of 65535 bits and 230 valid
+	// self-signatures (64 KiB: 276 s)
+	addBig("inspect", "corpus-D1-dsa-giant-parameters", "k.asc", pgpGiantDSA(64<<10, true).armor("PGP PUBLIC KEY BLOCK"))
+	{
+		kp, up, sp := pgpSignedDSAKey(8191 - 256)
+		addBig("inspect", "corpus-D1-dsa-giant-modulus-valid-signatures", "k.asc",
+			rcp(append(append([]byte{}, kp...), up...), sp, (48<<10-len(kp)-len(up))/len(sp), nil).armor("PGP PUBLIC KEY BLOCK"))
+	}
 	add("armor", "corpus-A1-longheader-64k", "k.asc", []byte("-----BEGIN PGP PUBLIC KEY BLOCK-----\nVersion: "+strings.Repeat("x", 1<<16)+"\n\nAAAA\n-----END PGP PUBLIC KEY BLOCK-----\n"))
 }
 
